@@ -376,7 +376,21 @@ class Scratch(object):
 
     def __exit__(self, *a):
         shutil.rmtree(self.path, ignore_errors=True)
+        # companion directory on another file system (see other_filesystem_dir), if one was made for this scratch
+        shutil.rmtree(os.path.join("/dev/shm", "vp_fs_" + os.path.basename(self.path)), ignore_errors=True)
         return False
+
+
+def other_filesystem_dir(scratch_path):
+    """A directory (removed with the scratch directory) on a file system other than the temporary directory's, or None."""
+    try:
+        if os.path.isdir("/dev/shm") and os.access("/dev/shm", os.W_OK) and os.stat("/dev/shm").st_dev != os.stat(tempfile.gettempdir()).st_dev:
+            p = os.path.join("/dev/shm", "vp_fs_" + os.path.basename(scratch_path.rstrip("/")))
+            os.makedirs(p, exist_ok=True)
+            return p
+    except OSError:
+        pass
+    return None
 
 
 def tier_and_seed():
